@@ -60,7 +60,25 @@ def c18(run):
         "(R-OWN-PDU). Necessary for 'allocation failure is survived without crash or leak'.")
 
 
+def c12(run):
+    from rules import r_session
+    P = run.prog('rel')
+    r_session.run_ref_tmp(run, P)
+    r_session.run_ref_hold(run, P)
+    r_session.run_sess_evt(run, P)
+    run.min_instances('R-REF-TMP', 8)
+    run.min_instances('R-REF-HOLD', 6)
+    run.min_instances('R-SESS-EVT', 5)
+    run.assumptions = ASSUME_COMMON + ["peer<->session bijection (hash equality) and reclamation timing are NOT decided"]
+    return run.finish(
+        "Reference discipline of sessions decided on every path: temporary references are released in the same function (R-REF-TMP); objects "
+        "holding a session reference (computed: queue nodes, subscriptions, async entries) release it before they are freed or cleared "
+        "(R-REF-HOLD); a server session is never freed without SERVER_SESSION_DEL and NEW is raised once (R-SESS-EVT); function-local owners "
+        "of strings/binaries/optlists/cache keys are disposed of on every path (R-OWN-LOCAL). Necessary for 'live while referenced, everything released'.")
+
+
 PROPS = {
+    'C12': c12,
     'C18': c18,
     'C13': c13,
     'C17': c17,
